@@ -25,12 +25,20 @@ BASE = {
     # ... and with a small lobe inside the wall, beyond psinorm_sol
     "lsn_bump": [[1, 1.5, 0.15, W], [1, 1.5, -0.45, W], [0.12, 1.72, 0.25, 0.07]],
     "off_axis": [[1, 1.42, 0.12, W], [0.9, 1.55, -0.47, W]],
+    # strongly tilted divertors (the coil lobe 35 and 28 degrees from the vertical): BOTH strike points lie on the same side of the X-point's
+    # major radius - outboard for the lower X-point tilted outwards, inboard for the upper one tilted inwards - so inner / outer can only be told by
+    # comparing the two strike points with each other (seed C19_inner_leg_by_xpoint_radius compared the first leg's with the X-point)
+    "tilt_out_lower": [[1, 1.5, 0.15, W], [1, 1.5 + 0.6 * 0.5736, 0.15 - 0.6 * 0.8192, W]],
+    "tilt_in_upper": [[1, 1.5, -0.15, W], [1, 1.5 - 0.6 * 0.5736, -0.15 + 0.6 * 0.8192, W]],
+    "tilt_in_lower": [[1, 1.5, 0.15, W], [1, 1.5 - 0.6 * 0.4695, 0.15 - 0.6 * 0.8829, W]],
+    "tilt_out_upper": [[1, 1.5, -0.15, W], [1, 1.5 + 0.6 * 0.4695, -0.15 + 0.6 * 0.8829, W]],
     # the lower lobe lies wholly inside the wall: the separatrix closes round it (legs never reach the wall) and the X-point between the
     # lower lobe and a third one is hidden from the axis (psi not monotone on the line from the axis)
     "closed": [[1, 1.5, 0.1, 0.2], [1, 1.5, -0.3, 0.2], [0.8, 1.82, -0.32, 0.13]],
 }
 SOLS = {"lsn": (1.05, 1.2), "usn": (1.05, 1.2), "cdn": (1.05, 1.2), "ldn": (1.03, 1.2), "udn": (1.03, 1.2), "ldn_tilt": (1.03, 1.25), "lsn_far": (1.1, 3.5),
-        "lsn_bump": (1.1, 2.5), "off_axis": (1.05, 1.2), "closed": (1.1, 1.3)}
+        "lsn_bump": (1.1, 2.5), "off_axis": (1.05, 1.2), "closed": (1.1, 1.3),
+        "tilt_out_lower": (1.1, 1.15), "tilt_in_upper": (1.1, 1.15), "tilt_in_lower": (1.1, 1.15), "tilt_out_upper": (1.1, 1.15)}
 
 
 def make_cases(tier, seed):
